@@ -71,6 +71,7 @@ func catalogue(r *vh.Run, rng *vh.RNG) []job {
 	jobs = append(jobs, poisonJobs(w)...)
 	jobs = append(jobs, strikesJobs(w)...)
 	jobs = append(jobs, redeliveryJobs(w)...)
+	jobs = append(jobs, headerBatchJobs(w)...)
 	jobs = append(jobs, relayJobs(w)...)
 	jobs = append(jobs, mixedJobs(w, wl, rng)...)
 	// a second network in both tiers: v2 allowed at 3, required at 5
